@@ -9,6 +9,7 @@ Encoding (inside one percent-encoded argument): records separated by "\n", field
 -/
 import PoetryVerif.Protocol
 import PoetryVerif.Model.Select
+import PoetryVerif.Model.GitIgnore
 
 namespace Poetry.Drv.SelectH
 open Poetry Poetry.Proto Poetry.Select
@@ -101,6 +102,13 @@ def handleSelect (op : String) (args : List String) : Option String :=
       match (do let (_, iobjs) ← mkModule f T c; excludedSet f T c (parseIgnored ign) iobjs) with
       | .error e => selErr e
       | .ok xs => "ok\t" ++ encode ("\n".intercalate ((xs.mergeSort (fun a b => a ≤ b)).eraseDups))
+  | "gitignored", tree :: files =>
+    -- reference listing of `git ls-files --others -i --exclude-standard`; each file argument: dir U+001F text
+    let fs : List GitIgnore.IgnFile := files.filterMap fun a =>
+      match a.splitOn us with
+      | [d, txt] => some ⟨parsePosix d, GitIgnore.parseFile txt⟩
+      | _ => none
+    some <| "ok\t" ++ encode ("\n".intercalate ((GitIgnore.ignoredListing fs (parseTree tree)).map posix))
   | "boundary", [tree, cfg] =>
     -- the decidable conditions of C09.wheel_from_sdist_eq_decidable for the wheel's package list
     let T := parseTree tree
